@@ -699,10 +699,10 @@ class DMSAngle(object):
         :return: HP Notation (DDD.MMSSSS)
         :rtype: float
         """
-        if self.positive:
-            return self.degree + (self.minute / 100) + (self.second / 10000)
-        else:
-            return -(self.degree + (self.minute / 100) + (self.second / 10000))
+        # via dec2hp(): rounds the seconds to the 1e-9" resolution of HP
+        # notation and carries, so that 59.9999999999" cannot become a
+        # seconds field of 60
+        return dec2hp(self.dec())
 
     def hpa(self):
         """
@@ -901,11 +901,9 @@ class DDMAngle(object):
         :return: HP Notation (DDD.MMSSSS)
         :rtype: float
         """
-        minute_int, second = divmod(self.minute, 1)
-        if self.positive:
-            return self.degree + (minute_int / 100) + (second * 0.006)
-        else:
-            return -(self.degree + (minute_int / 100) + (second * 0.006))
+        # via dec2hp(): rounds the seconds to the 1e-9" resolution of HP
+        # notation and carries, so that no field can reach 60
+        return dec2hp(self.dec())
 
     def hpa(self):
         """
